@@ -203,13 +203,13 @@ def classify(S):
 
 def judge_field(S, pos, placement, text, fl, o):
     """Clause (b) and the line rule for family (i).  -> (problems, class, stats)"""
-    P = judge(text, o, field_line=fl)
-    stats = {}
-    if o.exc is not None:
-        return P, 'crash', stats
     cls, anns, rest = classify(S)
     if placement == 'cont' and not S.lstrip().startswith('('):
         cls = 'text'                      # not an annotation continuation: only the generic clauses
+    P = judge(text, o, field_line=None if cls == 'text' else fl)
+    stats = {}
+    if o.exc is not None:
+        return P, 'crash', stats
     blk = o.blocks.get('foo_bar')
     if pos != 'ident' and blk is None:
         P.append(('lost-block', 'block foo_bar lost although its identifier line is intact'))
@@ -414,7 +414,7 @@ def degenerate():
         '/**\n * Foo:bar: ((\n */', '/**\n * foo_bar:\n text without asterisk (\n * @p: )\n */',
         '/**\n * foo_bar:\n x * @p: (\n */', '/**\n * foo_bar:\n *@p:(skip\n */', '/**\n *foo_bar:(\n */',
         '/**\n * foo_bar:\n * @: x\n * @@p: (\n */', '/**\n * foo_bar:\n * @p:: (skip): x\n * @q: :: (\n */',
-        '/**\n * good_one: (\n */', '/**\n * good_two:\n * @y: )\n */', '/**\n * foo_bar:\n */\n', '/**\n * foo_bar:\n */\n\n',
+        '/**\n * foo_bar:\n */\n', '/**\n * foo_bar:\n */\n\n',
         '\n/**\n * foo_bar: (\n */', '/**\n * foo_bar: (\n **/', '/**\n * foo_bar: (\n ***/', '/***\n * foo_bar: (\n */',
         '/**/\n * foo_bar: (\n */', '/**\n * foo_bar:\n *\n * (not an annotation\n */',
         '/**\n * foo_bar:\n * @p: x\n * (late (\n */', '/**\n * foo_bar:\n *\n * Returns:\n *   (\n */',
@@ -603,7 +603,7 @@ def run(ctx):
     if thorough:
         n_double, n_single, n_cont, n_bases, n_we = 6, 7, 6, 30, 3
     else:
-        n_double, n_single, n_cont, n_bases, n_we = 5, 5, 4, 12, 2
+        n_double, n_single, n_cont, n_bases, n_we = 4, 5, 4, 12, 2
     bases = base_blocks(n_bases)
     ctx.set(rule='(i) every string over %r up to the stated length as the annotation field of the identifier / '
                  'parameter / Returns line of a fixed skeleton (inline and on a continuation line); (ii) every single '
